@@ -26,7 +26,7 @@ FAMILIES = [["postgres", "redshift", "greenplum", "duckdb", "materialize", "vert
             ["tsql", "snowflake", "bigquery", "oracle", "db2", "teradata", "exasol"],
             ["mysql", "mariadb", "sqlite", "clickhouse", "starrocks", "soql"]]
 BOUNDS = ("corpus of checks/corpus.py x ansi vs 4 seeded other dialects per statement (quick, seeded third of the corpus; thorough: every "
-          "statement vs 8 seeded dialects, /plain statements vs ALL 25 other dialects); up to 4 free names (2 characters); a dialect that "
+          "statement vs 6 seeded dialects, 40 seeded /plain INSERTs vs ALL 25 other dialects); up to 4 free names (2 characters); a dialect that "
           "rejects the placeholder text is skipped for that statement (acceptance is re-checked on every replayed witness)")
 STUBS = ["sqllineage.runner.split / SqlFluffLineageAnalyzer._list_specific_statement_segment (parser boundary), one tree per dialect"]
 ASSUMPTIONS = ["SQL validity assumptions of C08", "identifier quoting is not varied here (C16 does, per dialect)"]
@@ -206,9 +206,11 @@ def obligations(tier, seed):
                 seen.add(k)
                 obs.append(LegacyOb(k, st, 4, seed))
     else:
+        # sized by wall time: the legacy leg and 6 seeded dialects on every statement; all 25 dialects on the /plain INSERTs
         obs += [LegacyOb(k, st, 5, seed) for k, st in tpl]
         for k, st in tpl:
-            obs.append(DialectOb(k, st, rnd.sample(ALL_DIALECTS, 8), 4, seed))
-            if "/plain" in k and k.startswith(("insert/", "ctas/")):
-                obs.append(DialectOb(k, st, ALL_DIALECTS, 3, seed))
+            obs.append(DialectOb(k, st, rnd.sample(ALL_DIALECTS, 6), 4, seed))
+        plain = [(k, st) for k, st in tpl if "/plain" in k and k.startswith("insert/")]
+        for k, st in rnd.sample(plain, min(len(plain), 40)):
+            obs.append(DialectOb(k, st, ALL_DIALECTS, 3, seed))
     return obs
